@@ -512,7 +512,8 @@ def cond_in_loop(ctx: Ctx, fn: FuncInfo, loop: ast.AST, target: ast.AST):
     g = ctx.cfg(fn)
     header, body = loop_region(ctx, fn, loop)
     t = g.primary(target)
-    return dataflow.path_condition(g, header, t, body | {header}, ctx.fb(fn))
+    c = dataflow.path_condition(g, header, t, body | {header}, ctx.fb(fn), expand=_expander(ctx, fn))
+    return f_and_ctx(ctx, fn, c, target)
 
 
 def cond_from_entry(ctx: Ctx, fn: FuncInfo, target: ast.AST):
@@ -520,7 +521,65 @@ def cond_from_entry(ctx: Ctx, fn: FuncInfo, target: ast.AST):
     to the node holding `target`."""
     g = ctx.cfg(fn)
     t = g.primary(target)
-    return ctx.facts(fn, exc=False).formula_at(t, ctx.fb(fn))
+    c = ctx.facts(fn, exc=False).formula_at(t, ctx.fb(fn), expand=_expander(ctx, fn))
+    return f_and_ctx(ctx, fn, c, target)
+
+
+def _expander(ctx: Ctx, fn: FuncInfo):
+    """Tests are normalised after substituting single-definition locals by their definitions (a named
+    boolean or an alias of a sub-expression does not change a guard)."""
+    g = ctx.cfg(fn)
+    rd = ctx.rd(fn)
+
+    def expand(e, at):
+        return dataflow.expand_locals(g, rd, e, at, only=dataflow.guard_like)
+    return expand
+
+
+def expression_context(stmt_part: ast.AST, target: ast.AST) -> list[tuple[ast.AST, bool]]:
+    """Conditions under which `target` (a sub-expression) is evaluated inside the expression tree it belongs
+    to: enclosing conditional expressions and short-circuit operators."""
+    out: list[tuple[ast.AST, bool]] = []
+
+    def go(node: ast.AST, conds: list) -> bool:
+        if node is target:
+            out.extend(conds)
+            return True
+        if isinstance(node, ast.IfExp):
+            return go(node.test, conds) or go(node.body, conds + [(node.test, True)]) or go(node.orelse, conds + [(node.test, False)])
+        if isinstance(node, ast.BoolOp):
+            acc = list(conds)
+            for v in node.values:
+                if go(v, acc):
+                    return True
+                acc = acc + [(v, isinstance(node.op, ast.And))]
+            return False
+        if isinstance(node, (ast.FunctionDef, ast.AsyncFunctionDef, ast.Lambda, ast.ClassDef)):
+            return False
+        for c in ast.iter_child_nodes(node):
+            if go(c, conds):
+                return True
+        return False
+    go(stmt_part, [])
+    return out
+
+
+def f_and_ctx(ctx: Ctx, fn: FuncInfo, c, target: ast.AST):
+    """Add the expression-level conditions (IfExp / and / or) under which `target` is evaluated."""
+    from .formula import f_and, f_not
+    if isinstance(target, ast.stmt):
+        return c
+    m = enclosing_stmt_map(fn.node)
+    st = m.get(id(target))
+    if st is None:
+        return c
+    from .cfg import header_parts
+    parts = []
+    for hp in header_parts(st):
+        for (t, pol) in expression_context(hp, target):
+            f = ctx.fb(fn).build(t)
+            parts.append(f if pol else f_not(f))
+    return f_and(c, *parts)
 
 
 def formula_of(ctx: Ctx, fn: FuncInfo, text_or_expr):
@@ -535,3 +594,21 @@ MEMO_DECORATORS = ('lru_cache', 'cache', 'cached_property', 'memoize', 'memoized
 def memo_decorators(fn: FuncInfo) -> list[str]:
     """Decorators that memoise a function by argument equality (functools.lru_cache & co)."""
     return [d for d in fn.decorators if d.split('.')[-1] in MEMO_DECORATORS]
+
+
+def stable_root(e: ast.AST) -> Optional[str]:
+    """Root name of a Name / attribute chain (a value that only changes when the root is rebound or the
+    attribute path is assigned)."""
+    d = dotted(e)
+    return d.split('.')[0] if d else None
+
+
+def same_value(ctx: Ctx, fn: FuncInfo, e1: Optional[ast.AST], n1: int, e2: Optional[ast.AST], n2: int) -> bool:
+    """Both expressions are the same name / attribute path and its root has the same single binding at both
+    CFG nodes: they denote the same value."""
+    if e1 is None or e2 is None or not same_expr(e1, e2):
+        return False
+    r = stable_root(e1)
+    if r is None:
+        return False
+    return ctx.rd(fn).same_binding(n1, n2, r)
